@@ -167,7 +167,8 @@ class GhostSelf:
         if k == "w":
             object.__setattr__(self, k, v)
             return
-        self.w.check(("C12", "C14"), "fit/does not write attributes of the state (%s)" % k, False)
+        # (C06: an optimizer / scheduler parked on the state is shared by every fit of that state, nested ones included)
+        self.w.check(("C06", "C12", "C14"), "fit/does not write attributes of the state (%s)" % k, False)
         object.__setattr__(self, k, v)
 
     def _shuffle_data(self, pos_batch_size, neg_batch_size, num_batches, train_samples, input_bases, z_samples):
